@@ -226,6 +226,15 @@ fn on_enum(inp: &mut syn::DeriveInput) -> syn::Result<proc_macro2::TokenStream> 
 
     let tag = decode_tag(&enum_attrs);
 
+    // An optional field skips over the remainder of an unknown variant. For
+    // index-only enums the index is the whole value, so the position is reset
+    // to the start of the index and the index itself is what gets skipped.
+    let rewind = if index_only {
+        quote!(__d777.set_position(__p778);)
+    } else {
+        quote!()
+    };
+
     Ok(quote! {
         impl #impl_generics minicbor::Decode<'bytes, Ctx> for #name #typ_generics #where_clause {
             fn decode(__d777: &mut minicbor::Decoder<'bytes>, __ctx777: &mut Ctx) -> core::result::Result<#name #typ_generics, minicbor::decode::Error> {
@@ -233,7 +242,10 @@ fn on_enum(inp: &mut syn::DeriveInput) -> syn::Result<proc_macro2::TokenStream> 
                 #check
                 match __d777.u32()? {
                     #(#rows)*
-                    n => Err(minicbor::decode::Error::unknown_variant(n).at(__p778))
+                    n => {
+                        #rewind
+                        Err(minicbor::decode::Error::unknown_variant(n).at(__p778))
+                    }
                 }
             }
         }
